@@ -243,6 +243,82 @@ def text_model(ctx, quick):
                         f'behaviour of Text.tla with FifoSender')
 
 
+def editor_sweep(ctx, quick):
+    """pty sessions with the server-side line editor: printable text with
+    line ends, cut into packets in every way TLC enumerates (Text.tla with
+    one data type and one-byte characters), with and without line echo: the
+    server application must read exactly the text the client wrote."""
+    import asyncssh
+    from harness.sshpair import Pair, NoAuthServer
+    texts = ['ab\ncd\n', 'a\n\nbc\n', 'abc\nd', '\nxy\nz\n'] if quick else \
+        ['ab\ncd\n', 'a\n\nbc\n', 'abc\nd', '\nxy\nz\n', 'one two\n3\n\n',
+         'q\nw\ne\nr\n']
+    for ti, text in enumerate(texts):
+        n = len(text)
+        res, scripts = _text_tlc(f'c07_ed{ti}', [(0, [1] * n)],
+                                 3 if quick else 4, False, True, emit=True)
+        ctx.require_tlc_ok(f'Text packetisations of {n} characters', res)
+        cuts = sorted({tuple(len(p['b']) for p in sc) for sc in scripts})
+        ctx.require(cuts, 'no packetisations')
+        for echo in (True, False):
+            for lens in cuts:
+                got = []
+                st = {}
+
+                class SS(asyncssh.SSHServerSession):
+                    def connection_made(self, chan):
+                        st['schan'] = chan
+
+                    def pty_requested(self, *a):
+                        return True
+
+                    def shell_requested(self):
+                        return True
+
+                    def data_received(self, data, datatype):
+                        got.append(data)
+
+                    def eof_received(self):
+                        st['eof'] = True
+                        return False
+
+                class Srv(NoAuthServer):
+                    def session_requested(self):
+                        return SS()
+
+                p = Pair(server_cls=Srv,
+                         server_kw=dict(line_editor=True, line_echo=echo))
+                p.start()
+                try:
+                    async def open_():
+                        st['chan'], _ = await p.conn.create_session(
+                            asyncssh.SSHClientSession, term_type='ansi')
+                    p.run(open_())
+                    pos = 0
+                    for k in lens:
+                        p.call(st['chan'].write, text[pos:pos + k])
+                        pos += k
+                    p.call(st['chan'].write_eof)
+                    p.loop.run_until_idle()
+                finally:
+                    exc_ctx = [str(c.get('exception') or c.get('message'))
+                               for c in p.loop.exceptions]
+                    p.stop()
+                ctx.count(('editor', text, echo, lens),
+                          nontrivial=len(lens) < n)
+                # a last line without a line end is handed over at EOF
+                if ''.join(got) != text:
+                    ctx.violation(
+                        {'module': 'Text', 'clause': 'LineEditor',
+                         'echo': echo},
+                        f'C07 line editor (line_echo={echo}): client wrote '
+                        f'{text!r} as packets of {list(lens)} characters; '
+                        f'the server application read {"".join(got)!r} '
+                        f'loop={exc_ctx[:1]}',
+                        replay={'kind': 'editor', 'text': text, 'echo': echo,
+                                'lens': list(lens)})
+
+
 def main(ctx):
     quick = ctx.tier == 'quick'
     # ---- design check ----
@@ -274,6 +350,7 @@ def main(ctx):
     cc.replay_all(ctx, 'C07', 'c07', sims, ctx.seed + 7)
     text_sweep(ctx, quick)
     text_model(ctx, quick)
+    editor_sweep(ctx, quick)
     ctx.assumptions += [
         'one data unit of the model = one byte (x1) or 1024 bytes (x1k)',
         'writer = server session channel, reader = client session channel; '
